@@ -21,9 +21,9 @@ ASSUMPTIONS = [
 ]
 
 TOTALS = ["eager", "lazy", "reflect", "normalize", "sequential", "moment_matching"]
-ALPHABET = TOTALS + ["memoize", "memoize_shared", "Memoize_lazy", "user", "user2", "tape", "tape_shared", "montecarlo", "montecarlo_shared"]
-QUICK_ALPHABET = ["eager", "lazy", "normalize", "sequential", "memoize", "memoize_shared", "Memoize_lazy", "user", "tape", "tape_shared", "montecarlo_shared", "reflect"]
-WORKS = ["subs", "reduce", "optimizer", "reinterpret", "adjoint", "einsum", "inner_memoize", "sample", "lambda", "user_term", "mc_integrate", "affine", "compile", "sum_product", "gaussian"]
+ALPHABET = TOTALS + ["memoize", "memoize_shared", "Memoize_lazy", "Memoize_user", "user", "user2", "tape", "tape_shared", "montecarlo", "montecarlo_shared"]
+QUICK_ALPHABET = ["eager", "lazy", "normalize", "sequential", "memoize", "memoize_shared", "Memoize_lazy", "Memoize_user", "user", "tape", "tape_shared", "montecarlo_shared", "reflect"]
+WORKS = ["name_independence", "subs", "reduce", "optimizer", "reinterpret", "adjoint", "einsum", "inner_memoize", "sample", "lambda", "user_term", "mc_integrate", "affine", "compile", "sum_product", "gaussian"]
 EXC_TYPES = ["MemoryError", "RecursionError", "FloatingPointError", "NotImplementedError", "ValueError", "KeyboardInterrupt", "CancelledError"]
 
 ###############################################################################
@@ -189,6 +189,23 @@ class _Env:
             return marker2
 
         self.user, self.user2, self.marker, self.marker2 = user, user2, marker, marker2
+        # two more user interpretations with identical rules that differ in their name only
+        # (one keeps DispatchedInterpretation's default name); the rule declines and counts
+        from funsor.cnf import Contraction
+        from funsor.tensor import Tensor
+
+        self.consulted = {}
+        self.twins = []
+        for args in (("user_named",), ()):
+            twin = DispatchedInterpretation(*args)
+            self.consulted[id(twin)] = 0
+
+            @twin.register(Contraction, ops.AssociativeOp, ops.AssociativeOp, frozenset, Tensor, Tensor)
+            def twin_rule(red_op, bin_op, reduced_vars, a, b, _twin=twin):
+                self.consulted[id(_twin)] += 1
+                return None
+
+            self.twins.append(twin)
 
         @funsor.factory.make_funsor
         def UserTerm(x: funsor.Funsor) -> funsor.factory.Fresh[lambda x: x]:
@@ -224,6 +241,8 @@ class _Env:
             return I.memoize(self.shared_cache)
         if kind == "Memoize_lazy":
             return I.Memoize(I.lazy)
+        if kind == "Memoize_user":
+            return I.Memoize(self.user)  # Memoize constructed directly around a partial interpretation
         if kind == "user":
             return self.user
         if kind == "user2":
@@ -260,7 +279,7 @@ class _Env:
 
 
 def sem_enter(kind, top):
-    kind = {"tape_shared": "tape", "montecarlo_shared": "montecarlo"}.get(kind, kind)
+    kind = {"tape_shared": "tape", "montecarlo_shared": "montecarlo", "Memoize_user": "user"}.get(kind, kind)
     if kind in TOTALS:
         return ("total", kind)
     if kind in ("memoize", "memoize_shared"):
@@ -379,7 +398,9 @@ class Run:
                     a is b for a, b in zip(subs[1:], prev_top.subinterpretations)
                 )
                 first = subs[0]
-                if kind == "user":
+                if kind == "Memoize_user":
+                    ok = ok and isinstance(first, Memoize) and first.base_interpretation is env.user
+                elif kind == "user":
                     ok = ok and first is env.user
                 elif kind == "user2":
                     ok = ok and first is env.user2
@@ -478,6 +499,27 @@ class Run:
             with f.interpretations.lazy:
                 e = (x * y).reduce(ops.add, "j").reduce(ops.add, "i")
             z = f.optimizer.apply_optimizer(e)
+        elif name == "name_independence":
+            # two user interpretations with identical rules, differing in name only, must be
+            # consulted equally often by the terms library code builds inside their block
+            with f.interpretations.lazy:
+                e = (x * y).reduce(ops.add, "j").reduce(ops.add, "i")
+            xa = env.fresh_tensor(("a", "b"), (2, 3))
+            yb = env.fresh_tensor(("b", "c"), (3, 2))
+            counts = []
+            for twin in env.twins:
+                c0 = env.consulted[id(twin)]
+                with twin:
+                    z = f.optimizer.apply_optimizer(e)
+                    z = f.einsum.einsum("ab,bc->ac", xa, yb)
+                counts.append(env.consulted[id(twin)] - c0)
+            env.stats["twin_consultations"] = env.stats.get("twin_consultations", 0) + counts[0]
+            if counts[0] != counts[1]:
+                raise Violation(
+                    "partial-skipped",
+                    "inside apply_optimizer/einsum a user interpretation named %r was consulted %d times, its twin named %r %d times (same rules, same work)"
+                    % (env.twins[0].__name__, counts[0], env.twins[1].__name__, counts[1]),
+                )
         elif name == "reinterpret":
             with f.interpretations.lazy:
                 e = ((x * y).reduce(ops.add, "j") + 1.0)(i=1)
